@@ -92,7 +92,8 @@ Theorem elementary_staged d FF T :
   finite_fractures d = FF -> transition d = T ->
   ascending (normed_cycles_m (normed_load FF) (fit_slope FF) FF) ->
   elementary ppf sortR d =
-  wc_core (fit_slope FF) (fit_icpt FF) T (normed_cycles_m (normed_load FF) (fit_slope FF) FF) (map ppf (rossow (length FF))).
+  wc_core (fit_slope FF) (fit_icpt FF) T
+          (pearl_TN (normed_cycles_m (normed_load FF) (fit_slope FF) FF) (map ppf (rossow (length FF)))).
 Proof. exact (Elem.elementary_staged ppf sortR sort_perm sort_sorted d FF T). Qed.
 
 End Estimator.
